@@ -112,7 +112,8 @@ def cases(tier, seed):
                               "fcseq_after"]:
                     yield {"k": "bad", "bad": bad, "before": n_before, "after": n_after,
                            "where": where}
-    for k in ["source_noargs", "source_first_int", "source_first_none", "seq_empty"]:
+    for k in ["source_noargs", "source_first_int", "source_first_none", "seq_empty",
+              "source_first_getitem_only", "source_first_noncallable_attrs"]:
         yield {"k": k}
     # arguments that are all elements without data (SetContext, StoreContext): a Sequence / Split
     # branch of them is the identity, the containers that need a data element reject them
@@ -120,6 +121,12 @@ def cases(tier, seed):
                  "FillComputeSeq", "FillRequestSeq", "Source_then_flow"]:
         for nels in (1, 2):
             yield {"k": "only_nodata", "form": form, "n": nels}
+    # user code that raises StopIteration for one value (next() on an exhausted iterator of
+    # constants), and an accumulator that replaces its own fill method while being filled
+    for what in ["callable_stopiteration", "fill_stopiteration", "fill_rebinds_itself"]:
+        for arrangement in ["flat", "nested", "source_tail", "run_adapter", "after_callable"]:
+            for at in (0, 1, 3):
+                yield {"k": "user_code", "what": what, "arr": arrangement, "at": at}
     # a run-only element before a fill element cannot be converted (only callables can be
     # filled through): every container form must reject the arguments with LenaTypeError
     for fill_el in ["frseq", "fcseq", "fradapter", "sum", "nested_split_fc"]:
@@ -574,6 +581,80 @@ def run_case(r, obs):
                 obs.fail("bad-argument-accepted:only-elements-without-data:" + form,
                          "%s of only elements without data accepted: %s"
                          % (form, type(made).__name__))
+    elif k == "user_code":
+        obs.nontrivial = True
+        what, arr, at = r["what"], r["arr"], r["at"]
+        xs = [5, 3, 8, 1, 9]
+
+        class Consts(object):
+            """Callable that takes the next constant from an iterator for every value."""
+
+            def __init__(self, n):
+                self.it = iter(range(n))
+
+            def __call__(self, v):
+                return v + 100 * next(self.it)
+
+        class FillStops(object):
+            def __init__(self, n):
+                self.it = iter(range(n))
+                self.got = []
+
+            def fill(self, v):
+                next(self.it)
+                self.got.append(v)
+
+            def compute(self):
+                yield list(self.got)
+
+        class RunningMax(object):
+            """Lazy initialisation: the first fill installs the real fill method."""
+
+            def __init__(self):
+                self.max = None
+
+            def fill(self, v):
+                self.max = v
+                self.fill = self._fill_later
+
+            def _fill_later(self, v):
+                if v > self.max:
+                    self.max = v
+
+            def compute(self):
+                yield self.max
+        mk = {"callable_stopiteration": lambda: Consts(at),
+              "fill_stopiteration": lambda: FillStops(at),
+              "fill_rebinds_itself": RunningMax}[what]
+        el = mk()
+        if arr == "flat":
+            thunk = lambda: lena.core.Sequence(el).run(iter(xs))
+        elif arr == "nested":
+            thunk = lambda: lena.core.Sequence(lena.core.Sequence(), lena.core.Sequence(el)).run(xs)
+        elif arr == "source_tail":
+            thunk = lambda: lena.core.Source(list(xs), el)()
+        elif arr == "run_adapter":
+            thunk = lambda: lena.core.Run(el).run(iter(xs))
+        else:
+            thunk = lambda: lena.core.Sequence(gen.func("id"), el, gen.func("id")).run(iter(xs))
+        try:
+            got = ["ok", list(thunk())]
+        except Exception as e:  # pylint: disable=broad-except
+            got = ["exc", type(e).__name__]
+        obs.count("arrangements")
+        if what == "fill_rebinds_itself":
+            obs.check(got == ["ok", [max(xs)]], "arrangement-differs:accumulator-that-rebinds-fill",
+                      "%s with an accumulator whose first fill() installs another fill method "
+                      "gives %r on %r, filling it value by value gives %r"
+                      % (arr, got, xs, [max(xs)]))
+        else:
+            # the user's code fails for value number *at*: that is an error of the run, the
+            # results for the values before it must not be presented as the complete result
+            obs.check(got[0] == "exc", "user-exception-ends-the-flow-silently:" + what,
+                      "%s: the user's %s raises StopIteration for value no. %d of %r; the run "
+                      "returned %r as if the flow had ended there"
+                      % (arr, "callable" if what.startswith("callable") else "fill method", at,
+                         xs, got))
     elif k == "bad_fill_branch":
         import lena.math
         obs.nontrivial = True
@@ -630,6 +711,36 @@ def run_case(r, obs):
             obs.fail("source-first-wrong-exception", "Source(%r, f) raised %r" % (first, e))
         else:
             obs.fail("source-first-accepted", "Source(%r, f) accepted" % (first,))
+    elif k in ("source_first_getitem_only", "source_first_noncallable_attrs"):
+        # a first element of a Source is either rejected when the Source is built, or the Source
+        # built from it works: never accepted and failing when called
+        obs.nontrivial = True
+        if k == "source_first_getitem_only":
+            first, items = Indexed([4, 5, 6]), [4, 5, 6]
+        else:
+            first, items = Pages([4, 5]), [4, 5]
+        for tail in ([], [gen.func("id")]):
+            try:
+                import warnings
+                with warnings.catch_warnings():
+                    warnings.simplefilter("ignore")
+                    src = lena.core.Source(first, *tail)
+            except lena.core.LenaTypeError:
+                obs.count("rejected_at_construction")
+                continue
+            except Exception as e:  # pylint: disable=broad-except
+                obs.fail("source-first-wrong-exception", "Source(%s) raised %r"
+                         % (type(first).__name__, e))
+                continue
+            try:
+                got = list(src())
+            except Exception as e:  # pylint: disable=broad-except
+                obs.fail("bad-argument-accepted:source-first-fails-when-called",
+                         "Source(<%s object>%s) was accepted when built and raised %r when called"
+                         % (type(first).__name__, ", f" if tail else "", e))
+                continue
+            obs.check(got == items, "arrangement-differs:source-first-element",
+                      "Source(<%s of %r>)() = %r" % (type(first).__name__, items, got))
     elif k == "seq_empty":
         obs.nontrivial = True
         for n in range(0, 6):
@@ -668,3 +779,5 @@ RULE += (' Flows are also given as tuples, deques, map objects, dict views and u
          '(one with attributes named next/send/run/fill, one with __getitem__ only, one whose '
          '__iter__ is a generator function); ill-typed arguments include every partial mix of '
          'fill/compute/request/run attributes that is not an element.')
+RULE += (' Added: user callables / fill methods that raise StopIteration for one value (the run '
+         'must fail, not end silently) and an accumulator that rebinds its own fill method.')
